@@ -350,18 +350,28 @@ example : ∃ st, insertAll Images.empty ([(3, [1])] ++ (5, [7]) :: [(5, [8]), (
 example : csFrames (start 8) [hdr 5, dat 49 50 99 100, dat 75 7 7 7] = some [49, 50, 99, 100, 75] := by
   decide +kernel
 
-/-! ### translation tie: the source text of `insert_image` and of the frame loop, interpreted, is the model
+/-! ### translation tie: the source text of `CallstacksParser` and of `PyKdebugParser.callstacks`, interpreted, is the model
 
-  `tools/gen_pyir.py` translates `CallstacksParser.insert_image` and the frame loop of `feed_generator`
-  (`frames = []; for frame in trace.cs_frames: …` up to the `yield`) into the Python-subset IR of `Model/PyIRCs`
-  (`Gen/PyIRCs.lean`, on every run, pure `ast`); `PyIRCs.run` interprets a block on the two lists.  `bisect` is a
-  primitive of that interpreter whose meaning is `Callstacks.bisect`. -/
+  `tools/gen_pyir.py` translates `CallstacksParser.__init__`, `insert_image` and the WHOLE `feed_generator` (the loop over
+  the traces, the three-way `isinstance` dispatch, the frame loop, the `yield`, the calls of `self.insert_image`) of
+  `callstacks_parser.py`, and `PyKdebugParser.callstacks` of `pykdebugparser.py`, into the Python-subset IR of
+  `Model/PyIRCs` (`Gen/PyIRCs.lean`, on every run, pure `ast`); `PyIRCs.run` / `runFeed` / `runRequest` interpret them on
+  the two lists.  `bisect` is a primitive of that interpreter whose meaning is `Callstacks.bisect`; `self.insert_image(…)` is
+  answered by interpreting the translated `insert_image`. -/
 
-/-- The blocks generated from the source text are, node for node, the ones the two theorems below were proved for
-    (`Spec/PyIRCsExpected`, quoting the Python). -/
+/-- The terms generated from the source text are, node for node, the ones the theorems below were proved for
+    (`Spec/PyIRCsExpected`, quoting the Python): `insert_image`, the frame loop, `__init__`, the whole `feed_generator`,
+    `PyKdebugParser.callstacks`; and the translator met nothing it could not express. -/
 theorem source_is_expected_ir :
     Gen.PyIRCs.insertImage = PyIRCs.Expected.insertImage ∧ Gen.PyIRCs.frameLoop = PyIRCs.Expected.frameLoop ∧
-    Gen.PyIRCs.notes = [] := by decide
+    Gen.PyIRCs.notes = [] ∧
+    Gen.PyIRCs.init = PyIRCs.Expected.init ∧ Gen.PyIRCs.feedGenerator = PyIRCs.Expected.feedGenerator ∧
+    Gen.PyIRCs.callstacks = PyIRCs.Expected.callstacks := by decide
+
+/-- the generated program is the expected one -/
+theorem prog_is_expected : Gen.PyIRCs.prog = PyIRCs.Expected.prog := by
+  obtain ⟨h1, _, _, h4, h5, h6⟩ := source_is_expected_ir
+  simp only [Gen.PyIRCs.prog, PyIRCs.Expected.prog, h1, h4, h5, h6]
 
 /-- `insert_image(a, u)` of the source, interpreted on ANY pair of lists, is `Callstacks.insertImage`: returns
     `None`, leaves exactly the model's lists, raises exactly when the model's `bisect` does. -/
@@ -372,15 +382,73 @@ theorem insert_image_ir_eq_model (st : Images) (a : Nat) (u : Uuid) :
       | .error e => .error e := by
   rw [source_is_expected_ir.1]; exact PyIRCs.run_insertImage st a u
 
-/-- The frame loop of the source, interpreted on ANY pair of lists and any `cs_frames`, builds exactly
-    `Callstacks.lookupAll` (same frames in the same order, same `IndexError` where the model has one) and does not
-    touch the lists. -/
-theorem frame_loop_ir_eq_model (st : Images) (cs : List Nat) :
-    PyIRCs.run Gen.PyIRCs.frameLoop [.sample cs] st =
+/-- The frame loop of the source, interpreted on ANY pair of lists and any sample (`ktraces`, `cs_frames`), builds
+    exactly `Callstacks.lookupAll` (same frames in the same order, same `IndexError` where the model has one) and does
+    not touch the lists. -/
+theorem frame_loop_ir_eq_model (st : Images) (kts : List PyIRCs.KT) (cs : List Nat) :
+    PyIRCs.run Gen.PyIRCs.frameLoop [.trace (.sample kts (some cs))] st =
       match lookupAll st cs with
       | .ok frs => .ok (.frames (frs.map PyIRCs.ofFrame), st)
       | .error e => .error e := by
-  rw [source_is_expected_ir.2.1]; exact PyIRCs.run_frameLoop st cs
+  rw [source_is_expected_ir.2.1]; exact PyIRCs.run_frameLoop st kts cs
+
+/-- **feed_generator_ir_eq_model.**  The WHOLE `feed_generator` of the source — `for trace in generator`, the dispatch
+    `isinstance(trace, PerfEvent) and trace.cs_frames is not None` / `isinstance(trace, DyldUuidMapA)` /
+    `isinstance(trace, DyldLaunchExecutable)`, the frame loop, `yield Callstack(trace.ktraces[0].timestamp,
+    trace.ktraces[0].tid, frames)`, `self.insert_image(…)` answered by the translated `insert_image` — interpreted on
+    EVERY list of trace items and EVERY pair of initial lists (parallel or not, sorted or not) is the hand model
+    `Callstacks.feedFrom`: where the model delivers, the generator yields the same callstacks in the same order and leaves
+    the same two lists; where the model raises (an `IndexError` of `dyld_uuids[index_]` on lists of unequal length), the
+    generator raises the same exception, at the same item, after yielding exactly the callstacks of the items before it.
+    (`traceOf`: the trace object of an item — a sample's `ktraces` are the records of its window and its `cs_frames`
+    what `handle_event` computed, a launch's `uuid_map_a` is the sorted list.) -/
+theorem feed_generator_ir_eq_model (st : Images) (s : List Item) :
+    match feedFrom st s with
+    | .ok (st', cs) =>
+      PyIRCs.runFeed Gen.PyIRCs.prog (s.map PyIRCs.traceOf) none st =
+        (cs.map (fun c => PyIRCs.Val.callstack (PyIRCs.ofCallstack c)), .ok st')
+    | .error e =>
+      ∃ pre it post st₁ cs, s = pre ++ it :: post ∧ feedFrom st pre = .ok (st₁, cs) ∧ step st₁ it = .error e ∧
+        PyIRCs.runFeed Gen.PyIRCs.prog (s.map PyIRCs.traceOf) none st =
+          (cs.map (fun c => PyIRCs.Val.callstack (PyIRCs.ofCallstack c)), .error e) := by
+  rw [prog_is_expected, PyIRCs.runFeed_expected]
+  have h := PyIRCs.feedTrace_traceOf s st
+  cases hf : feedFrom st s with
+  | ok p => rw [hf] at h; simp only [h, PyIRCs.thenRaise]
+  | error e =>
+    rw [hf] at h
+    obtain ⟨pre, it, post, st₁, cs, h1, h2, h3, h4⟩ := h
+    exact ⟨pre, it, post, st₁, cs, h1, h2, h3, by simp only [h4, PyIRCs.thenRaise]⟩
+
+/-- The same on trace OBJECTS (not only those that come from windows): the interpreted `feed_generator` is
+    `PyIRCs.feedTrace` — per trace `lookupAll` stamped by `ktraces[0]` / `insertImage` / `insertAll` / nothing —, and an
+    exception of the trace generator itself surfaces after everything it delivered was consumed. -/
+theorem feed_generator_ir_eq_trace_model (st : Images) (ts : List PyIRCs.Trace) (err : Option PyErr) :
+    PyIRCs.runFeed Gen.PyIRCs.prog ts err st = PyIRCs.thenRaise err (PyIRCs.feedTrace st ts) := by
+  rw [prog_is_expected]; exact PyIRCs.runFeed_expected ts err st
+
+/-- **callstacks_request_ir_eq_model.**  `PyKdebugParser.callstacks(kdebug, trace_codes)` of the source
+    (`self.dyld_addresses.clear(); self.dyld_uuids.clear(); callstacks_parser = CallstacksParser(self.dyld_addresses,
+    self.dyld_uuids); return callstacks_parser.feed_generator(self.traces(kdebug, trace_codes))`, with
+    `CallstacksParser.__init__` storing its two arguments), interpreted on an object whose two lists hold ANYTHING
+    (the images of earlier requests), for every list of traces `self.traces(kdebug, trace_codes)` delivers (and every
+    exception it ends with): the request is the translated `feed_generator` over the traces of THIS request run from
+    EMPTY image lists, on exactly the object's two list objects (they hold the request's images afterwards). -/
+theorem callstacks_request_ir_eq_model (st₀ : Images) (ts : List PyIRCs.Trace) (err : Option PyErr) :
+    PyIRCs.runRequest Gen.PyIRCs.prog ts err st₀ = PyIRCs.runFeed Gen.PyIRCs.prog ts err Images.empty := by
+  rw [prog_is_expected]; exact PyIRCs.runRequest_expected ts err st₀
+
+/-- … hence the model's "every request is `feed` of its own dump" (`Callstacks.feed`, the subject of `callstacks_spec`)
+    is what the interpreted source does: for the trace objects of ANY item list and ANY earlier contents of the two
+    lists, the translated `callstacks()` never raises and yields exactly the callstacks of `feed`, in order. -/
+theorem callstacks_request_is_feed (st₀ : Images) (s : List Item) :
+    ∃ cs st', feed s = .ok cs ∧
+      PyIRCs.runRequest Gen.PyIRCs.prog (s.map PyIRCs.traceOf) none st₀ =
+        (cs.map (fun c => PyIRCs.Val.callstack (PyIRCs.ofCallstack c)), .ok st') := by
+  obtain ⟨st', cs, e, _⟩ := feedFrom_spec s Images.empty inv_empty
+  have h := feed_generator_ir_eq_model Images.empty s
+  rw [e] at h
+  exact ⟨cs, st', by simp [feed, e], by rw [callstacks_request_ir_eq_model]; exact h⟩
 
 /-- announcing through the generated `insert_image` -/
 def insIR (r : Except PyErr Images) (a : Nat) (u : Uuid) : Except PyErr Images :=
@@ -393,9 +461,55 @@ example : insIR (insIR (insIR (insIR (.ok Images.empty) 0x30 [3]) 0x10 [1]) 0x20
     .ok ⟨[0x10, 0x20, 0x30], [[1], [2], [3]]⟩ := by decide
 
 /-- … then the frames 0x5, 0x10, 0x2f, 0x31 through the generated loop. -/
-example : (PyIRCs.run Gen.PyIRCs.frameLoop [.sample [0x5, 0x10, 0x2f, 0x31]] ⟨[0x10, 0x20, 0x30], [[1], [2], [3]]⟩).map (·.1) =
+example : (PyIRCs.run Gen.PyIRCs.frameLoop [.trace (.sample [] (some [0x5, 0x10, 0x2f, 0x31]))]
+      ⟨[0x10, 0x20, 0x30], [[1], [2], [3]]⟩).map (·.1) =
     .ok (.frames [⟨0x5, none, none⟩, ⟨0x10, some [1], some 0⟩, ⟨0x2f, some [2], some 0xf⟩, ⟨0x31, some [3], some 1⟩]) := by
   decide
+
+private instance prodExceptDecEq {α ε β : Type} [DecidableEq α] [DecidableEq ε] [DecidableEq β] :
+    DecidableEq (α × Except ε β) := inferInstance
+
+/-- The concrete trace list of the examples below: a sample BEFORE any image is known; image announcements in
+    DESCENDING order (0x30, 0x20, 0x10); a duplicate address (0x20 again, another identity: ignored); a sample without
+    frames (`cs_frames is None`); an unrelated trace; a launch trace with two images (0x18, 0x40 — sorted); a sample AFTER. -/
+def exTraces : List PyIRCs.Trace :=
+  [.sample [⟨100, 7⟩, ⟨101, 8⟩] (some [0x25]),
+   .image 0x30 [3], .image 0x20 [2], .image 0x10 [1], .image 0x20 [9],
+   .sample [⟨110, 7⟩] none, .other,
+   .launch [(0x18, [4]), (0x40, [5])],
+   .sample [⟨120, 9⟩, ⟨121, 9⟩] (some [0x5, 0x10, 0x1f, 0x2f, 0x31, 0x41])]
+
+/-- non-vacuity: the GENERATED `feed_generator` run on it from empty lists: two callstacks, stamped by `ktraces[0]`, the
+    first with an unattributed frame, the second attributed against the five first identities; final lists sorted. -/
+example : PyIRCs.runFeed Gen.PyIRCs.prog exTraces none Images.empty =
+    ([.callstack ⟨100, 7, [⟨0x25, none, none⟩]⟩,
+      .callstack ⟨120, 9, [⟨0x5, none, none⟩, ⟨0x10, some [1], some 0⟩, ⟨0x1f, some [4], some 7⟩,
+                           ⟨0x2f, some [2], some 0xf⟩, ⟨0x31, some [3], some 1⟩, ⟨0x41, some [5], some 1⟩]⟩],
+     .ok ⟨[0x10, 0x18, 0x20, 0x30, 0x40], [[1], [4], [2], [3], [5]]⟩) := by decide
+
+/-- … the GENERATED `callstacks()` on an object that still holds the images of an earlier request (0x1 and 0x26, which
+    would attribute frame 0x25 of the first sample and frame 0x5 of the last): same answer as from empty lists. -/
+example : PyIRCs.runRequest Gen.PyIRCs.prog exTraces none ⟨[0x1, 0x26], [[0xaa], [0xbb]]⟩ =
+    PyIRCs.runFeed Gen.PyIRCs.prog exTraces none Images.empty := by decide
+
+/-- … without the clearing the stale images WOULD show (the interpreter can tell the difference): -/
+example : (PyIRCs.runFeed Gen.PyIRCs.prog exTraces none ⟨[0x1, 0x26], [[0xaa], [0xbb]]⟩).1 ≠
+    (PyIRCs.runFeed Gen.PyIRCs.prog exTraces none Images.empty).1 := by decide
+
+/-- … lists of unequal length: the `IndexError` of `self.dyld_uuids[index_]` comes after the first callstack (frame 0x25 is
+    below every address) and the insertions were made; the generator's own exception surfaces only at its end. -/
+example : PyIRCs.runFeed Gen.PyIRCs.prog exTraces none ⟨[0x28], []⟩ =
+    ([.callstack ⟨100, 7, [⟨0x25, none, none⟩]⟩], .error .indexError) := by decide
+example : (PyIRCs.runFeed Gen.PyIRCs.prog (exTraces.take 5) (some .eof) Images.empty).2 = .error .eof := by decide
+
+/-- … and the trace objects of the model's items (`feed_generator_ir_eq_model` on the stream of the first example of this
+    file). -/
+example : (PyIRCs.runFeed Gen.PyIRCs.prog
+      ([Item.image 100 [1], .image 50 [2], .image 100 [3], .launch [(70, [5]), (60, [4]), (70, [6])],
+        .sample (start 8) [hdr 5, dat 49 50 99 100, dat 75 7 7 7]].map PyIRCs.traceOf) none Images.empty) =
+    ([.callstack ⟨10, 9, [⟨49, none, none⟩, ⟨50, some [2], some 0⟩, ⟨99, some [5], some 29⟩, ⟨100, some [1], some 0⟩,
+                          ⟨75, some [5], some 5⟩]⟩],
+     .ok ⟨[50, 60, 70, 100], [[2], [4], [5], [1]]⟩) := by decide +kernel
 
 end C15
 end KdVerif
